@@ -29,9 +29,9 @@ def expand(t: ast.AST, events) -> ast.AST:
 
         def visit_Name(self, n):
             nm = n.id
-            if len(nm) > 2 and nm[0] == "$" and nm[1] in "cp" and nm[2:].isdigit():
+            if len(nm) > 2 and nm[0] == "$" and nm[1] in "cpl" and nm[2:].isdigit():
                 i = int(nm[2:])
-                if i < len(events) and events[i].kind in ("call", "prop") and self.depth < 8:
+                if i < len(events) and events[i].kind in ("call", "prop", "alloc") and self.depth < 8:
                     self.depth += 1
                     try:
                         return self.visit(_copy(events[i].term))
